@@ -38,10 +38,11 @@ type c02Vec struct {
 		Skew int64 `json:"skew"`
 	} `json:"cfg"`
 	In struct {
-		Entry  string     `json:"entry"`
-		ArtII  string     `json:"artII"`
-		RespII string     `json:"respII"`
-		Assns  []c02AssnC `json:"assns"`
+		Entry   string     `json:"entry"`
+		IdpInit bool       `json:"idpInit"`
+		ArtII   string     `json:"artII"`
+		RespII  string     `json:"respII"`
+		Assns   []c02AssnC `json:"assns"`
 	} `json:"in"`
 	Abs struct {
 		ArtII  int64     `json:"artII"`
@@ -92,7 +93,12 @@ func c02Build(v *c02Vec, now time.Time, rng *rand.Rand) []byte {
 		ac := v.In.Assns[k]
 		var confs []ConfSpec
 		for j, c := range a.Confs {
-			confs = append(confs, ConfSpec{Recipient: sp(spACS), InResponseTo: sp("id-req-1"), NotOnOrAfter: inst(ac.Confs[j], c)})
+			cs := ConfSpec{Recipient: sp(spACS), InResponseTo: sp("id-req-1"), NotOnOrAfter: inst(ac.Confs[j], c)}
+			if v.In.IdpInit && j%2 == 1 {
+				// the windows hold for every confirmation, whatever its method
+				cs.Method = []string{"urn:oasis:names:tc:SAML:2.0:cm:holder-of-key", "urn:oasis:names:tc:SAML:2.0:cm:sender-vouches", "-"}[rng.Intn(3)]
+			}
+			confs = append(confs, cs)
 		}
 		assns = append(assns, buildAssertion(AssnSpec{
 			ID: fmt.Sprintf("id-assn-%d", k+1), IssueInstant: inst(ac.II, a.II), Issuer: sp(idpEntityID),
@@ -299,6 +305,8 @@ func TestC02(t *testing.T) {
 		reps = 3
 	}
 	spv := newSP(idpMetadata([]keyUse{{"signing", key("idp1").CertB64()}}))
+	spvIdp := newSP(idpMetadata([]keyUse{{"signing", key("idp1").CertB64()}}))
+	spvIdp.AllowIDPInitiated = true
 	now := c02Now.Add(time.Duration(seedVal()%1000) * time.Hour)
 	saml.TimeNow = func() time.Time { return now }
 	for _, gk := range keys {
@@ -311,7 +319,11 @@ func TestC02(t *testing.T) {
 				k := c02Key(v)
 				rng := newRand(fmt.Sprintf("%s/%d", k, r))
 				doc := c02Build(v, now, rng)
-				o := c02Run(spv, doc)
+				use := spv
+				if v.In.IdpInit {
+					use = spvIdp
+				}
+				o := c02Run(use, doc)
 				rep.Eval(v.Class, k)
 				rep.Trace(1)
 				c02Judge(rep, v, k, doc, o, now)
@@ -446,7 +458,7 @@ func TestC02Random(t *testing.T) {
 			}
 			if respOut || allOut {
 				v.Class = "MustReject"
-			} else if allStrict {
+			} else if allStrict && len(v.Abs.Assns) == 1 {
 				v.Class = "MustAccept"
 			}
 			v.Pred.Verdict = map[bool]string{true: "accept", false: "reject"}[o.Accepted]
